@@ -70,6 +70,7 @@ func runC06(c *core.Ctx) {
 	h.voterCacheFreshness("C06.3b voter-cache")
 	c.Clause("C06.4 matchIndex raised only by a success reply for the acknowledged request")
 	h.matchIndexOnlyOnSuccess("C06.4 matchIndex")
+	h.pipelineRequestsAccounted("C06.4c pipeline-accounting")
 	h.storageErrorsSurface("C06.5 storage-errors-surface", storageErrExempt)
 	h.leaderInitEstablishes("C06.3c voter-cache", "leader.numVoters")
 	h.configSetters("C06.3d config-setters")
